@@ -100,6 +100,15 @@ def cStep (p : CSt) (ws : List String) : CSt × String :=
     (match cparseKey k, v.toNat? with
      | some k, some v => fin (C.setitem p.cfg s k v) fun r => ({ p with st := some r.1 }, "ok")
      | _, _ => (p, "bad-op"))
+  | ["repeatset", k, v, n], some s =>
+    -- the same assignment `n` times in a row (drives the modification stamp far without a long op file)
+    (match cparseKey k, v.toNat?, n.toNat? with
+     | some k, some v, some n =>
+       let rec go : Nat → CState CK CV → Res (CState CK CV)
+         | 0, st => .ok st
+         | m+1, st => (C.setitem p.cfg st k v).bind fun r => go m r.1
+       fin (go n s) fun s' => ({ p with st := some s' }, "ok")
+     | _, _, _ => (p, "bad-op"))
   | ["del", k], some s =>
     (match cparseKey k with
      | some k => fin (C.delitem s k) fun r =>
